@@ -63,6 +63,8 @@ def c09(res, tier, seed, replay):
     design_check(res, "ShardCache", "ShardCache.small.cfg" if tier == "quick" else "ShardCache.ideal.cfg", timeout=2400)
     if tier == "thorough":
         design_check(res, "ShardCache", "ShardCache.pinned.cfg", timeout=3000)
+    expect_design_violation(res, "ShardCache", "ShardCache.unlocked.cfg", "ReaderSnapshotConsistent",
+                            "a reader that does not keep the cache's read lock: the writer attaches meanwhile and the reader sees the open batch")
     expect_design_violation(res, "ShardCache", "ShardCache.pinned-crash.cfg", "NoClosedBucketRead",
                             "every attaching reader installs its bucket handle in the shared cache object (pinned behaviour)")
     expect_design_violation(res, "ShardCache", "ShardCache.pinned-stale.cfg", "CoherentWhenIdle",
